@@ -289,13 +289,40 @@ func (d *Data) BackgroundBlock() []byte {
 	numElements := d.BlockSize().Prod()
 	bytesPerElement := int64(d.Values.BytesPerElement())
 	blockData := make([]byte, numElements*bytesPerElement)
-	if d.Background != 0 && bytesPerElement == 1 {
-		background := byte(d.Background)
-		for i := range blockData {
-			blockData[i] = background
-		}
-	}
+	fillBackground(blockData, d.backgroundVoxel())
 	return blockData
+}
+
+// backgroundVoxel returns the bytes of one voxel in which every value is the Background
+// property (little-endian integers, IEEE floats), or nil if Background is 0.
+func (d *Data) backgroundVoxel() []byte {
+	if d.Background == 0 {
+		return nil
+	}
+	var voxel []byte
+	for _, v := range d.Values {
+		b := make([]byte, dvid.DataTypeBytes(v.T))
+		switch {
+		case v.T == dvid.T_float32 && len(b) == 4:
+			binary.LittleEndian.PutUint32(b, math.Float32bits(float32(d.Background)))
+		case v.T == dvid.T_float64 && len(b) == 8:
+			binary.LittleEndian.PutUint64(b, math.Float64bits(float64(d.Background)))
+		case len(b) > 0:
+			b[0] = d.Background
+		}
+		voxel = append(voxel, b...)
+	}
+	return voxel
+}
+
+// fillBackground tiles the buffer with the given voxel bytes.
+func fillBackground(data, voxel []byte) {
+	if len(voxel) == 0 {
+		return
+	}
+	for i := 0; i+len(voxel) <= len(data); i += len(voxel) {
+		copy(data[i:], voxel)
+	}
 }
 
 // GetImage retrieves a 2d image from a version node given a geometry of voxels.
@@ -478,11 +505,7 @@ func (d *Data) GetBlocks(v dvid.VersionID, start dvid.ChunkPoint3d, span int32) 
 	numBytes := blockBytes * span
 
 	buf := make([]byte, numBytes, numBytes)
-	if d.Background != 0 {
-		for i := range buf {
-			buf[i] = byte(d.Background)
-		}
-	}
+	fillBackground(buf, d.backgroundVoxel())
 
 	if gridStore != nil {
 		blockCoord := start
